@@ -230,7 +230,11 @@ pub struct Plan {
 
 pub fn plans(tier: Tier) -> Vec<Plan> {
     match tier {
-        Tier::Quick => vec![Plan { name: "reduced alphabet, r0+s0 pre-created", al: Alphabet::quick(), init: quick_init(), depth: 4 }],
+        Tier::Quick => vec![
+            Plan { name: "reduced alphabet, r0+s0 pre-created", al: Alphabet::quick(), init: quick_init(), depth: 4 },
+            // second resource, second dataset, data in two sets, rich targets: shallower
+            Plan { name: "full alphabet, r0+s0 pre-created", al: Alphabet::thorough(), init: quick_init(), depth: 3 },
+        ],
         Tier::Thorough => vec![
             Plan { name: "full alphabet, r0+s0 pre-created", al: Alphabet::thorough(), init: quick_init(), depth: 4 },
             Plan { name: "reduced alphabet, r0+s0 pre-created", al: Alphabet::quick(), init: quick_init(), depth: 5 },
